@@ -246,7 +246,7 @@ def run_prog(case, pid, at_limit_fn=None, on_step=None):
         raw.close()
         for h in handles:
             h.close()
-        digest = sim.digest()
+        stats['virtual_s'] = sim.now - sim._t0
     finally:
         world.close()
     return violations, stats
